@@ -1280,7 +1280,12 @@ def audit(out: OutputBuffer, aconf: AuditConf, sshv: Optional[int] = None, print
         out.fail(err)
         return exitcodes.CONNECTION_ERROR
     if sshv == 1:
-        program_retval = output(out, aconf, banner, header, pkm=SSH1_PublicKeyMessage.parse(payload))
+        try:
+            pkm = SSH1_PublicKeyMessage.parse(payload)
+        except Exception:
+            out.fail("Failed to parse server's public key message.  Stack trace:\n%s" % str(traceback.format_exc()))
+            return exitcodes.CONNECTION_ERROR
+        program_retval = output(out, aconf, banner, header, pkm=pkm)
     elif sshv == 2:
         try:
             kex = SSH2_Kex.parse(out, payload)
